@@ -65,6 +65,8 @@ def display_issue(src, out):
 def judge(src, out):
     """-> list of (signature, description) : ways in which this outcome breaks C05 (every input) / C03 completeness"""
     issues = []
+    if out.get("not_run"):
+        return []       # the batch was stopped after many hanging inputs (reported from those): this input was not run
     if out.get("hang"):
         sig = "hang:statement-after-catch-block" if "拦截" in src else "hang:other"
         return [(sig, "compilation does not terminate")]
